@@ -136,6 +136,138 @@ func c16isLockstateOwnerRace(text string, m []string) bool {
 // c16streamRun runs one stream in a child process and merges what it reports.
 func c16streamRun(c *Ctx, cfg c16streamCfg, n int) { c16streamRunC(c, cfg, n, false) }
 
+// c16buildRace builds this harness with the race detector (needs cgo; "" when not available).
+func c16buildRace(c *Ctx) (string, string) {
+	bin := filepath.Join(c.Out, "harness-race.bin")
+	args := []string{"build", "-race", "-tags", "verif c16", "-o", bin}
+	if mf := filepath.Join(filepath.Dir(c.Out), "harness.mod"); os.Getenv("VERIF_REPO") != "" && os.Getenv("VERIF_REPO") != "/repo" {
+		args = append(args, "-modfile="+mf)
+	}
+	args = append(args, ".")
+	cmd := exec.Command("go", args...)
+	cmd.Env = append(os.Environ(), "CGO_ENABLED=1", "GOFLAGS=-mod=mod")
+	ob, err := cmd.CombinedOutput()
+	if err != nil {
+		t := string(ob)
+		if len(t) > 400 {
+			t = t[len(t)-400:]
+		}
+		return "", "race build not available: " + t
+	}
+	return bin, ""
+}
+
+// c16raceOnMap: are BOTH accesses of a race report map operations of the Go runtime (runtime.mapaccess /
+// mapassign / mapdelete / mapiter as the innermost frame) made directly by a debugger function?  Those
+// are accesses to the debugger's own tables which the runtime turns into a fatal error when they
+// collide.  (A result that is encoded by the caller while a thread runs on is a different matter:
+// the maps in it were filled before they were published; such reports are counted, not judged.)
+func c16raceOnMap(rep string) bool {
+	lines := strings.Split(rep, "\n")
+	stacks, good := 0, 0
+	for i, l := range lines {
+		t := strings.TrimSpace(l)
+		if !(strings.HasPrefix(t, "Read at ") || strings.HasPrefix(t, "Write at ") || strings.HasPrefix(t, "Previous read at ") || strings.HasPrefix(t, "Previous write at ")) {
+			continue
+		}
+		stacks++
+		if i+1 >= len(lines) || !strings.HasPrefix(strings.TrimSpace(lines[i+1]), "runtime.map") {
+			continue
+		}
+		for j := i + 1; j < len(lines) && strings.TrimSpace(lines[j]) != ""; j += 2 {
+			fn := strings.TrimSpace(lines[j])
+			if strings.HasPrefix(fn, "runtime.") {
+				continue
+			}
+			if strings.Contains(fn, "ecal/interpreter.(*ecalDebugger)") {
+				good++
+			}
+			break
+		}
+	}
+	return stacks == 2 && good == 2
+}
+
+// c16raceSite names the innermost debugger function of a report (for the evidence only).
+func c16raceSite(rep string) string {
+	for _, l := range strings.Split(rep, "\n") {
+		t := strings.TrimSpace(l)
+		if i := strings.Index(t, "(*ecalDebugger)."); i >= 0 {
+			t = t[i+len("(*ecalDebugger)."):]
+			if j := strings.Index(t, "("); j >= 0 {
+				t = t[:j]
+			}
+			return t
+		}
+	}
+	return "?"
+}
+
+// c16streamRace runs one stream (no mutex blocks: the listed finding stays out of it) in a child built
+// with the race detector.  The detector reports an unsynchronised access to the debugger's tables
+// whenever both accesses HAPPEN in the run, they need not collide: that is what makes a narrowed
+// or dropped lock visible in one short stream.  Only reports with a frame inside the debugger
+// (interpreter.(*ecalDebugger)) count; time bounds are not judged in this mode.
+func c16streamRace(c *Ctx, bin string, cfg c16streamCfg, n int) {
+	desc := c16desc{Stream: &cfg}
+	out := filepath.Join(c.Out, fmt.Sprintf("stream-race-%d", n))
+	os.MkdirAll(out, 0o755)
+	defer os.RemoveAll(out)
+	b, _ := json.Marshal(cfg)
+	cmd := exec.Command(bin, "C16stream", "-tier", c.Tier, "-seed", fmt.Sprint(cfg.Seed), "-out", out)
+	cmd.Env = append(os.Environ(), "C16_STREAM_CFG="+string(b), "C16_STREAM_RACE=1",
+		"GORACE=halt_on_error=0 log_path="+filepath.Join(out, "race"))
+	var buf strings.Builder
+	cmd.Stdout = &buf
+	cmd.Stderr = &buf
+	if err := cmd.Start(); err != nil {
+		c.Notes = append(c.Notes, "race stream child did not start: "+err.Error())
+		return
+	}
+	done := make(chan error, 1)
+	go func() { done <- cmd.Wait() }()
+	select {
+	case <-done:
+	case <-time.After(240 * time.Second):
+		cmd.Process.Kill()
+		<-done
+		c.Notes = append(c.Notes, "race stream did not end within 240s (not judged)")
+	}
+	// a report counts when one of its two accesses is a MAP operation (runtime.mapaccess / mapassign /
+	// mapdelete / mapiter as the innermost frame: these are the accesses the Go runtime turns into a
+	// fatal error when they collide) made from inside the debugger.  Other reports (a plain word
+	// written by several readers, e.g. the time stamp of the last visit) are counted, not judged.
+	var races []string
+	other := map[string]int{}
+	files, _ := filepath.Glob(filepath.Join(out, "race*"))
+	for _, f := range files {
+		rb, _ := os.ReadFile(f)
+		for _, rep := range strings.Split(string(rb), "==================") {
+			if !strings.Contains(rep, "DATA RACE") || !strings.Contains(rep, "ecal/interpreter.(*ecalDebugger)") {
+				continue
+			}
+			if c16raceOnMap(rep) {
+				if len(rep) > 2400 {
+					rep = rep[:2400]
+				}
+				races = append(races, rep)
+			} else {
+				other[c16raceSite(rep)]++
+			}
+		}
+	}
+	for k, v := range other {
+		c.Dist["race_stream_other_reports|"+k] += v
+	}
+	c.Dist["race_stream_reports"] += len(races)
+	c.Evals++
+	c.distinct[fmt.Sprintf("stream-race|%+v", cfg)] = true
+	if len(races) > 0 {
+		desc.Race = races[0]
+		c.Violate("data-race-debugger", fmt.Sprintf("race detector: %d report(s) with a frame inside the debugger while commands were handled with threads running (an unsynchronised access to the debugger's tables aborts the process when it collides with a write: fatal error: concurrent map read and map write)", len(races)), desc)
+	}
+}
+
 func c16streamRunC(c *Ctx, cfg c16streamCfg, n int, confirming bool) {
 	desc := c16desc{Stream: &cfg}
 	out := filepath.Join(c.Out, fmt.Sprintf("stream-%d", n))
@@ -225,6 +357,21 @@ func c16streams(c *Ctx) {
 		c16streamRun(c, cfg, i)
 	}
 	c.Extra["streams_with_running_threads"] = n
+	// the same kind of stream under the race detector (short: the detector needs the accesses to
+	// happen, not to collide)
+	if !c.Enough() && len(c.Violations) == before {
+		if rbin, why := c16buildRace(c); rbin != "" {
+			nr := c.Pick(1, 4)
+			for i := 0; i < nr && len(c.Violations) == before; i++ {
+				c16streamRace(c, rbin, c16streamCfg{Seed: c.Seed*1000 + 500 + int64(i), Runners: 3, Calls: 1500 + 500*i, CmdProcs: 2}, i)
+			}
+			os.Remove(rbin)
+			c.Extra["streams_under_race_detector"] = nr
+		} else {
+			c.Notes = append(c.Notes, why)
+			c.Extra["streams_under_race_detector"] = 0
+		}
+	}
 	// one stream with runners inside ECAL mutex blocks and mostly lockstate commands: reproduces
 	// the listed finding lockstate-live-owner-map when the race is hit (reported under that key
 	// only for exactly that death, see c16isLockstateOwnerRace); nothing is reported if it is not hit
